@@ -38,10 +38,12 @@ def gen_c05(rng, n, maxlen):
         r = rng.random()
         if r < 0.82:
             op = rng.choice(BIG_OPS2)
+            if op == "gcd" and n > 20000 and rng.random() < 0.85:
+                op = rng.choice(["add", "sub", "mul", "cmp"])          # Euclid on the limb-level model is slow: cap its share in big runs
             a, b = G.gen_big_pair(rng, maxlen)
             if op in ("div", "rem", "divas", "remas") and G.big_value(b) == 0:
                 b = ("L", b[1], [rng.randint(1, 7)])
-            lim = 3 if op == "gcd" else 6       # the extracted limb-level model is slow on long division chains
+            lim = 2 if op == "gcd" else (6 if n <= 20000 else 4)       # the extracted limb-level model is slow on long division chains
             if op in ("div", "rem", "divas", "remas", "gcd") and (len(a[2]) > lim or len(b[2]) > lim):
                 a = ("L", a[1], a[2][:lim])
                 b = ("L", b[1], (b[2][:lim] if G.limbs_val(b[2][:lim]) else [3]))
